@@ -87,6 +87,12 @@ where
         shard.find(hash, |p| key.equivalent(p.key())).cloned()
     }
 
+    /// Number of keeper shards whose lock is currently held (verification hook).
+    #[cfg(feature = "verif")]
+    pub fn verif_locked_shards(&self) -> usize {
+        self.inner.shards.iter().filter(|shard| shard.is_locked()).count()
+    }
+
     fn shard(&self, hash: u64) -> Arc<RwLock<Shard<K, V, P>>> {
         let index = (hash as usize) % self.inner.shards.len();
         self.inner.shards[index].clone()
